@@ -932,8 +932,9 @@ def run(ctx):
                 return "%s class=%s: %s" % (known[c].get("id"), c, known[c].get("what"))
         return None
 
-    total = len(U) + len(H) + len(S) + len(B) + len(U_bad) + len(U_abs) + len(H_bad)
-    compared = dist.get("U_cases", 0) + dist.get("H_cases", 0) + dist.get("S_cases", 0) + dist.get("B_cases", 0)
+    n_e2e = dist.get("E2E_requests_seen_by_mock_host", 0)
+    total = len(U) + len(H) + len(S) + len(B) + len(U_bad) + len(U_abs) + len(H_bad) + n_e2e
+    compared = dist.get("U_cases", 0) + dist.get("H_cases", 0) + dist.get("S_cases", 0) + dist.get("B_cases", 0) + n_e2e
     distinct = len({(m, t) for m, t in U}) + len({tuple(h) for h in H if h}) + len({(m, t, tuple(h), b, k) for m, t, h, b, k in S}) + len(live)
     dist["known_finding_failures"] = dict(n_known)
     ctx.coverage.update({
@@ -944,7 +945,8 @@ def run(ctx):
                 "percent-escapes, `&&`, `=` in values, empty keys, collision patterns, the exemption URLs in several spellings (incl. every pair "
                 "currently in should_skip_sig's source); H: header lists in any order/case with blank/tab padding, repeated names, the authorization "
                 "header, values that are non-ASCII UTF-8 text (Unicode blanks at the edges) or not valid UTF-8 (truncated / overlong / surrogate / stray bytes); S: whole requests with bodies 0..100 KiB over all byte values and a hex/non-hex key; B: build_request for the four real "
-                "own-call shapes and random ones. Non-trivial = distinct input by content. Inputs hyper rejects are counted, not compared.",
+                "own-call shapes and random ones; E: keep-alive connections relayed by the real ProxyServer (single requests, Content-Length / chunked bodies, key rotated or "
+                "cleared between requests, connection accepted before the latch). Non-trivial = distinct input by content. Inputs hyper rejects are counted, not compared.",
         "exhaustive": False,
         "samples": [x for x in [sample_S, sample_U, sample_H, sample_B] if x],
         "input_distribution": dist,
